@@ -16,7 +16,7 @@ LEVEL_TEXT = ("Lean 4 theorems for every tuple of operand arrays (0..n rows each
 LEVEL_NOTE = ("Trusted: Lean kernel (+ standard axioms); hand models (tied by correspondence); ragged_slice on 1-D / 2-D ndarray inputs and "
               "empty_like are correspondence-only; windows that start outside their row are outside the property.")
 TECHNIQUE = "Lean 4 proof of structural functions = list-of-rows spec; model/implementation correspondence"
-DESIGN_REF = "6.8"
+DESIGN_REF = "7"
 LEAN_MODULES = ["NpsVerif.Props.C08A", "NpsVerif.Props.C08B"]
 KERNELS = ()
 RULE = ("cases = function (concatenate axis 0 / -1, zeros/ones/empty_like, nonzero, where, subset, mask indexing, ragged_slice on "
